@@ -23,6 +23,7 @@ package scheduler
 import (
 	"sort"
 
+	"github.com/apache/yunikorn-core/pkg/common/configs"
 	"github.com/apache/yunikorn-core/pkg/handler"
 	"github.com/apache/yunikorn-core/pkg/rmproxy/rmevent"
 	"github.com/apache/yunikorn-scheduler-interface/lib/go/si"
@@ -83,3 +84,21 @@ func (cc *ClusterContext) VerifStopPartitionManagers() {
 // VerifMoveTerminatedApp runs the terminated-application callback of the partition for the given application id:
 // what the goroutine started by Application.executeTerminatedCallback does, at a moment chosen by the harness.
 func (pc *PartitionContext) VerifMoveTerminatedApp(appID string) { pc.moveTerminatedApp(appID) }
+
+// VerifCleanQueues runs one pass of the partition manager's queue cleaner (cleanRoot timer body) synchronously.
+func (pc *PartitionContext) VerifCleanQueues() { pc.partitionManager.cleanQueues(pc.root) }
+
+// VerifConfigUpdate runs the configuration update event of the RM (validate, checksum short-cut, dry run, update)
+// synchronously and returns the result that is sent back to the RM.
+func (cc *ClusterContext) VerifConfigUpdate(rmID, config string, extra map[string]string) (bool, string) {
+	ch := make(chan *rmevent.Result, 1)
+	cc.processRMConfigUpdateEvent(&rmevent.RMConfigUpdateEvent{RmID: rmID, Config: config, ExtraConfig: extra, Channel: ch})
+	r := <-ch
+	return r.Succeeded, r.Reason
+}
+
+// VerifFreshPartition builds the partition a configuration update builds in its dry run: a fresh, silent load of the
+// partition configuration that is not linked to a cluster context.
+func VerifFreshPartition(conf configs.PartitionConfig, rmID string) (*PartitionContext, error) {
+	return newPartitionContext(conf, rmID, nil, true)
+}
